@@ -1164,8 +1164,77 @@ def falsy_parent_stream(ctx, res):
                 res.violate("C15:wrong-path:falsy-parent", "a rejection below a configuration that tests false (a config type defining __len__ / __bool__) does not name the full path",
                             dict(case, ref_path=err.ref_path))
 
+def copies_and_taken_over_dicts_stream(ctx, res):
+    """(a) a DEEP COPY of a configuration holding a list of configurations: a rejection inside item i of the COPY names
+    `…servers[i]…` (the copy's items belong to the copy's list), and the original keeps naming its own; (b) a typed dict taken
+    over from another configuration of the same schema (two items of a list three levels deep; two root configurations): a
+    rejected entry — item assignment, update, setdefault — names the path of the configuration that HOLDS the dict now"""
+    import copy
+    import cincoconfig as cc
+    srv = cc.Schema()
+    srv.host = cc.StringField(default="h")
+    srv.port = cc.PortField(default=1)
+    srv.limits.quota = cc.DictField(cc.StringField(), cc.IntField(min=0), default=dict)
+    for typed in (False, True):
+        S_ = cc.make_type(srv, "C15CopySrv") if typed else srv
+        s = cc.Schema()
+        s.cluster.servers = cc.ListField(S_, default=lambda: [])
+        s.pool.nodes = cc.ListField(S_, default=lambda: [])
+        cfg = s()
+        cfg.cluster.servers = [{"host": "a"}, {"host": "b"}, {"host": "c"}]
+        for what in ("configuration", "section", "list"):
+            if what == "configuration":
+                dup = copy.deepcopy(cfg)
+                servers = dup.cluster.servers
+            elif what == "section":
+                servers = copy.deepcopy(cfg.cluster).servers
+            else:
+                servers = copy.deepcopy(cfg.cluster.servers)
+            for i in range(3):
+                for label, lst in (("copy", servers), ("original", cfg.cluster.servers)):
+                    case = {"stream": "deep-copy-paths", "config_type": typed, "deep_copy_of": what, "side": label, "item": i}
+                    res.case(stable(case), kind="deep-copy-paths")
+                    try:
+                        lst[i].port = "not a port"
+                        err = None
+                    except Exception as e:  # noqa
+                        err = e
+                    want = "cluster.servers[%d].port" % i
+                    if not isinstance(err, cc.ValidationError):
+                        res.violate("C15:not-validation-error", "a rejection inside an item of a (copied) list surfaced as %s" % type(err).__name__, case)
+                    elif not err.ref_path.endswith("servers[%d].port" % i) or (what == "configuration" and err.ref_path != want) or (label == "original" and err.ref_path != want):
+                        res.violate("C15:wrong-index:deep-copy", "a rejection inside an item of a deep copy (or of the original after the copy was made) does not name the item's index",
+                                    dict(case, ref_path=err.ref_path, expected=want))
+        # (b)
+        for route in ("attribute", "dotted"):
+            cfg = s()
+            cfg.pool.nodes = [{"host": "n0"}, {"host": "n1"}, {"host": "n2"}]
+            other = s()
+            other.pool.nodes = [{"host": "o0"}]
+            cfg.pool.nodes[0].limits.quota = {"cpu": 1}
+            other.pool.nodes[0].limits.quota = {"disk": 9}
+            for giver, giver_label in ((cfg.pool.nodes[0], "another item of the same list"), (other.pool.nodes[0], "an item of another configuration")):
+                holder = cfg.pool.nodes[2]
+                if route == "attribute":
+                    holder.limits.quota = giver.limits.quota
+                else:
+                    holder["limits.quota"] = giver.limits.quota
+                for op, do in (("d[k] = bad", lambda d: d.__setitem__("mem", -1)), ("update", lambda d: d.update({"mem": "x"})), ("setdefault", lambda d: d.setdefault("mem", -5))):
+                    case = {"stream": "taken-over-dict", "config_type": typed, "route": route, "taken_from": giver_label, "op": op}
+                    res.case(stable(case), kind="taken-over-dict")
+                    try:
+                        do(holder.limits.quota)
+                        err = None
+                    except Exception as e:  # noqa
+                        err = e
+                    want = "pool.nodes[2].limits.quota[mem]"
+                    if isinstance(err, cc.ValidationError) and err.ref_path != want:
+                        res.violate("C15:wrong-path:taken-over-dict", "a rejected entry of a typed dict that was taken over from another configuration names the configuration it was "
+                                    "taken from, not the one that holds it", dict(case, ref_path=err.ref_path, expected=want))
+
 def run(ctx, n_quick=250, n_thorough=8000):
     res = Result()
+    guard(res, "C15", copies_and_taken_over_dicts_stream, ctx, res)
     guard(res, "C15", falsy_parent_stream, ctx, res)
     guard(res, "C15", virtual_and_key_decoding_stream, ctx, res)
     guard(res, "C15", lambda: P.run_stream(ctx, res, "C15", ctx.n(n_quick, n_thorough), oracle, gen_ops=gen_ops, ops_len=(8, 20)))
